@@ -237,9 +237,16 @@ def spec_module():
 # symbolic input generator
 
 
+class _Leaves(dict):
+    def __setitem__(self, name, v):
+        if name in self and self[name][0] != v[0]:
+            raise OutOfSubset(f'contract error: leaf name {name!r} is used for a {self[name][0]} and a {v[0]}')
+        super().__setitem__(name, v)
+
+
 class SymGen:
     def __init__(self):
-        self.leaves = {}         # name -> (kind, z3 terms / info)
+        self.leaves = _Leaves()         # name -> (kind, z3 terms / info)
         self.assumptions = []
 
     def pyvc_attr(self, I, name):
